@@ -16,11 +16,12 @@ type RootBase struct {
 
 type ERoot struct {
 	RootBase
+	Alias string `json:"Code"` // an own field whose JSON tag spells the Go name of a PROMOTED field
 	Label string
 	Own   int `json:"own"`
 }
 
-var eRootNames = []string{"RootBase", "Pname", "Ps", "Code", "code", "Label", "Own", "own", "Val", "val"}
+var eRootNames = []string{"Alias", "RootBase", "Pname", "Ps", "Code", "code", "Label", "Own", "own", "Val", "val"}
 var rootBaseNames = []string{"Pname", "Ps", "Code", "code", "Label", "Val", "val"}
 
 // promotedTags: JSON tags of promoted fields, per struct type (region of finding kfPromotedTag).
@@ -50,12 +51,15 @@ func eRootField(e ERoot, k string) (any, string, string) {
 	switch k {
 	case "RootBase":
 		return e.RootBase, reach, ".embedded"
+	case "Alias":
+		return e.Alias, reach, ".name"
 	case "Pname":
 		return e.Pname, reach, ".promoted"
 	case "Ps":
 		return e.Ps, reach, ".promoted"
 	case "Code":
-		return e.Code, reach, ".promoted"
+		// e.Code is the promoted field, although the own field Alias is tagged "Code"
+		return e.Code, reach, ".promoted-over-other-tag"
 	case "code":
 		return e.Code, reach, ".promoted-tag"
 	case "Val":
@@ -91,6 +95,7 @@ func buildERoot(v VD) ERoot {
 		RootBase: RootBase{Pname: v.M["Pname"].S, Code: v.M["Code"].S, Label: v.M["InnerLabel"].S},
 		Label:    v.M["Label"].S,
 		Own:      atoi(v.M["Own"].S),
+		Alias:    v.M["Alias"].S,
 	}
 	if ps, ok := v.M["Ps"]; ok {
 		e.Ps = make([]int, len(ps.L))
@@ -107,12 +112,12 @@ func buildERoot(v VD) ERoot {
 func vERoot(tag string) VD {
 	return VD{K: "eroot", M: map[string]VD{
 		"Pname": vStr("pn-" + tag), "Ps": vList("ints", vInt(1), vInt(2)), "Code": vStr("code-" + tag),
-		"InnerLabel": vStr("inner-" + tag), "Label": vStr("outer-" + tag), "Own": vInt(5),
+		"InnerLabel": vStr("inner-" + tag), "Label": vStr("outer-" + tag), "Own": vInt(5), "Alias": vStr("alias-" + tag),
 		"Val": vMap("map", map[string]VD{"k": vStr("held by a promoted field")}),
 	}}
 }
 
-var eUniverse = []string{"x", "Pname", "Ps", "Code", "code", "Label", "Own", "own", "RootBase", "Val", "pname", "CODE"}
+var eUniverse = []string{"x", "Alias", "Pname", "Ps", "Code", "code", "Label", "Own", "own", "RootBase", "Val", "pname", "CODE"}
 
 // eNames is the universe compared for embedding roots; while the promoted-tag finding is open the
 // tag names of promoted fields stay out.
